@@ -1056,7 +1056,11 @@ func (fv *FuncVC) unop(x *ssa.UnOp) {
 		if isFloat(x.Type()) {
 			fv.defReg(x, fv.e.fop("fp.neg", fv.val(x.X)))
 		} else {
-			fv.defReg(x, fv.wrap(app("-", fv.val(x.X)), x.Type()))
+			if isInt64Kind(x.Type()) && fv.dataInt(x.X, nil) {
+				fv.defReg(x, wrap64(app("-", fv.val(x.X))))
+			} else {
+				fv.defReg(x, fv.wrap(app("-", fv.val(x.X)), x.Type()))
+			}
 		}
 	case token.XOR:
 		e.decl("fn:bit_not", "(declare-fun bit_not (Int) Int)")
@@ -1065,6 +1069,116 @@ func (fv *FuncVC) unop(x *ssa.UnOp) {
 		fv.unsupp("unary %s", x.Op)
 		fv.havocReg(x)
 	}
+}
+
+func isInt64Kind(t types.Type) bool {
+	b, ok := t.Underlying().(*types.Basic)
+	return ok && (b.Kind() == types.Int || b.Kind() == types.Int64)
+}
+
+// a call through a function value (closure, callback), not a builtin, static or interface method call
+func isFuncValueCall(c *ssa.Call) bool {
+	if c.Call.IsInvoke() || c.Call.StaticCallee() != nil {
+		return false
+	}
+	if _, ok := c.Call.Value.(*ssa.Builtin); ok {
+		return false
+	}
+	return true
+}
+
+func wrap64(t Term) Term {
+	return app("-", app("mod", app("+", t, "9223372036854775808"), "18446744073709551616"), "9223372036854775808")
+}
+
+// dataInt reports whether an int/int64 SSA value is (computed from) a cell value rather than a length, position
+// or counter: an element loaded from a slice or array of int/int64, an int taken out of an interface, the result
+// of calling a function value, a float converted to int, or arithmetic on / a phi over such values. Arithmetic on
+// these values is encoded exactly (wrap-around); all other int arithmetic stays mathematical (assumption listed).
+func (fv *FuncVC) dataInt(v ssa.Value, seen map[ssa.Value]bool) bool {
+	if !isInt64Kind(v.Type()) {
+		return false
+	}
+	if seen[v] {
+		return false
+	}
+	elemIsData := func(t types.Type) bool {
+		switch u := t.Underlying().(type) {
+		case *types.Slice:
+			return isInt64Kind(u.Elem())
+		case *types.Array:
+			return isInt64Kind(u.Elem())
+		case *types.Pointer:
+			if a, ok := u.Elem().Underlying().(*types.Array); ok {
+				return isInt64Kind(a.Elem())
+			}
+		}
+		return false
+	}
+	switch x := v.(type) {
+	case *ssa.UnOp:
+		if x.Op == token.MUL {
+			if ia, ok := x.X.(*ssa.IndexAddr); ok {
+				return elemIsData(ia.X.Type())
+			}
+			return false
+		}
+		if x.Op == token.SUB {
+			if seen == nil {
+				seen = map[ssa.Value]bool{}
+			}
+			seen[v] = true
+			return fv.dataInt(x.X, seen)
+		}
+	case *ssa.Index:
+		return elemIsData(x.X.Type())
+	case *ssa.TypeAssert:
+		return true
+	case *ssa.Extract:
+		if ta, ok := x.Tuple.(*ssa.TypeAssert); ok && ta.CommaOk {
+			return x.Index == 0
+		}
+		if c, ok := x.Tuple.(*ssa.Call); ok {
+			return isFuncValueCall(c)
+		}
+	case *ssa.Call:
+		return isFuncValueCall(x)
+	case *ssa.Convert:
+		if isFloat(x.X.Type()) {
+			return true
+		}
+		if seen == nil {
+			seen = map[ssa.Value]bool{}
+		}
+		seen[v] = true
+		return fv.dataInt(x.X, seen)
+	case *ssa.ChangeType:
+		if seen == nil {
+			seen = map[ssa.Value]bool{}
+		}
+		seen[v] = true
+		return fv.dataInt(x.X, seen)
+	case *ssa.BinOp:
+		switch x.Op {
+		case token.ADD, token.SUB, token.MUL, token.QUO, token.REM:
+			if seen == nil {
+				seen = map[ssa.Value]bool{}
+			}
+			seen[v] = true
+			return fv.dataInt(x.X, seen) || fv.dataInt(x.Y, seen)
+		}
+	case *ssa.Phi:
+		if seen == nil {
+			seen = map[ssa.Value]bool{}
+		}
+		seen[v] = true
+		for _, e := range x.Edges {
+			if fv.dataInt(e, seen) {
+				return true
+			}
+		}
+	}
+	return false
 }
 
 // wrap reduces a mathematical result into the range of a fixed-width type.
@@ -1090,7 +1204,7 @@ func (fv *FuncVC) wrap(t Term, ty types.Type) Term {
 	case types.Int32:
 		return app("-", app("mod", app("+", t, "2147483648"), "4294967296"), "2147483648")
 	}
-	fv.assumptions["int/int64 arithmetic is mathematical (no signed 64-bit overflow)"] = true
+	fv.assumptions["int/int64 arithmetic on lengths, positions and counters is mathematical (no signed 64-bit overflow); arithmetic on cell values (elements of []int, ints out of interfaces, callback results, float conversions) wraps at 64 bits exactly"] = true
 	return t
 }
 
@@ -1129,6 +1243,10 @@ func (fv *FuncVC) binop(op token.Token, X, Y ssa.Value, rt types.Type, pos token
 		}
 		if isString(t) {
 			return app("str_concat", a, b)
+		}
+		if isInt64Kind(rt) && (fv.dataInt(X, nil) || fv.dataInt(Y, nil)) {
+			// exact machine arithmetic where a cell value takes part: two's complement wrap-around at 64 bits
+			return wrap64(app(m[op], a, b))
 		}
 		return fv.wrap(app(m[op], a, b), rt)
 	case token.QUO:
